@@ -59,7 +59,7 @@ def sweep(ids):
     for sid in ids:
         d = os.path.join(VERIF, "seeded", sid)
         meta = json.load(open(os.path.join(d, "meta.json")))
-        wt = os.path.join(base, "sweep-" + sid)
+        wt = os.path.join(base, "sweep-" + os.path.basename(VERIF) + "-" + sid)
         sh("git -C /repo worktree remove --force " + wt)
         rc, o = sh("git -C /repo worktree add --detach %s HEAD" % wt)
         rc, o = sh("git apply --3way %s" % os.path.join(d, "patch.diff"), cwd=wt)
@@ -78,7 +78,7 @@ def sweep(ids):
                 shutil.copy(os.path.join(d, n), os.path.join(wt, "_out", n))
         note = meta.get("note")
         rc, o = sh([sys.executable, os.path.abspath(__file__), "confirm", wt, sid] + meta["properties"],
-                   env={"CARGO_TARGET_DIR": os.path.join(base, "_sweep_target")}, timeout=20000)
+                   env={"CARGO_TARGET_DIR": os.path.join(base, "_sweep_target_" + os.path.basename(VERIF))}, timeout=20000)
         print(o.strip().split("\n")[-1])
         if note:
             m2 = json.load(open(os.path.join(d, "meta.json")))
